@@ -46,7 +46,7 @@ import (
 func init() {
 	kit.Register(&kit.Spec{
 		ID:   "C28",
-		Rule: "one seeded history per shard on a full node (even shards dposv2-era, odd shards dpos-era): register v1/v2 producers and CR candidates, top-ups, inactive penalties (SetOffline), cancel/unregister, lock-up, DPoS v2 activation, StakeUntil expiry, partial/repeated/with-change deposit returns, stake, vote, renew, vote expiry, ReturnVotes, plus for every kind the over-draw variant through mempool and through a hand-assembled confirmed block, and same-block combinations; a case = one submitted operation (honest or over-draw) identified by (shard era, subject, kind, height); non-trivial = the operation reached the type's SpecialContextCheck (honest: accepted; over-draw: rejected for the over-draw reason or accepted)",
+		Rule: "one seeded history per shard on a full node (even shards dposv2-era, odd shards dpos-era): register v1/v2 producers and CR candidates, top-ups, inactive penalties (SetOffline), cancel/unregister, lock-up, DPoS v2 activation, StakeUntil expiry, partial/repeated/with-change deposit returns with varied output shapes (plain address, own deposit address change, FOREIGN deposit addresses of another producer / a CR candidate / nobody, mixtures), stake, vote, renew, vote expiry, ReturnVotes, plus for every kind the over-draw variant through mempool and through a hand-assembled confirmed block, and same-block combinations; a case = one submitted operation (honest or over-draw) identified by (shard era, subject, kind, height); non-trivial = the operation reached the type's SpecialContextCheck (honest: accepted; over-draw: rejected for the over-draw reason or accepted)",
 		Shards: func(tier string) int {
 			if tier == "thorough" {
 				return 96
@@ -65,6 +65,12 @@ func init() {
 			"overdraw_rejected_block:return-deposit", "overdraw_rejected_block:return-cr-deposit", "overdraw_rejected_block:voting", "overdraw_rejected_block:return-votes",
 			"overdraw_attempts_kind:return-deposit:locked", "overdraw_attempts_kind:return-deposit:beyond-topup", "overdraw_attempts_kind:return-deposit:beyond-penalty",
 			"overdraw_attempts_kind:return-votes:in-use", "overdraw_attempts_kind:voting:beyond-rights",
+			"return_deposit_to_foreign_deposit_address_cases", "return_deposit_to_foreign_deposit_address_honest_accepted",
+			"return_deposit_to_foreign_deposit_address_overdraw_cases", "return_deposit_to_foreign_deposit_address_overdraw_with_positive_available",
+			"return_deposit_to_foreign_deposit_address_dest:producer", "return_deposit_to_foreign_deposit_address_dest:cr", "return_deposit_to_foreign_deposit_address_dest:unregistered",
+			"return_deposit_to_foreign_deposit_address_mixed_outputs",
+			"overdraw_rejected_mempool_kind:return-deposit:foreign-deposit-output", "overdraw_rejected_block_kind:return-deposit:foreign-deposit-output",
+			"overdraw_rejected_mempool_kind:return-cr-deposit:foreign-deposit-output", "overdraw_rejected_block_kind:return-cr-deposit:foreign-deposit-output",
 			"same_block_attempts", "same_block_attempts:return-deposit:same-block-double", "same_block_attempts:voting:same-block:vote+return",
 			"model_compares:producer", "model_compares:cr", "model_compares:stake", "returns_with_penalty",
 			"penalties_applied:inactive", "penalties_applied:illegal", "accepted:UpdateProducer-to-v1v2", "accepted:CancelProducer:at-v2-activation",
@@ -586,6 +592,7 @@ func (k *c28) expectReject(kind, subj, taint string, tx interfaces.Transaction, 
 		inPool = true
 	} else {
 		k.c.Inc("overdraw_rejected_mempool:" + fam)
+		k.c.Inc("overdraw_rejected_mempool_kind:" + kind)
 	}
 	// block
 	accepted := k.blockAttempt(kind, subj, taint, cas, tx)
